@@ -57,7 +57,8 @@ func VerifC03PhaseObjects() {
 	paused := verifrt.Bool("paused")
 	owner, me := vObjectSetOwner(0, "me", "uid-me", vNS, 3, paused)
 	w := &vWriter{}
-	cache := &vCache{vReader{Objs: map[client.ObjectKey]*unstructured.Unstructured{}}}
+	// a freshly started process: the dynamic cache has no watches yet and refuses reads of unwatched kinds
+	cache := &vCache{vReader: vReader{Objs: map[client.ObjectKey]*unstructured.Unstructured{}}, Strict: true}
 	uncached := &vReader{Objs: map[client.ObjectKey]*unstructured.Unstructured{}}
 	prober := &vProber{ok: map[string]bool{}, seenRV: map[string]string{}}
 	pf := &vPreflightPerObject{bad: map[string]bool{}, w: w}
